@@ -457,11 +457,6 @@ class Sampler():
 
                 self.n_update_iter += self.add_samples(-1, verbose=verbose)
                 self.n_like_iter += self.n_batch
-                if self.filepath is not None:
-                    # Write the complete file if this is the first batch.
-                    if self.n_like == self.n_batch:
-                        self.write(self.filepath, overwrite=True)
-                    self.write_shell_update(self.filepath, -1)
 
                 if self.f_live <= f_live:
 
@@ -489,6 +484,15 @@ class Sampler():
                     self.discard_exploration = discard_exploration
                     if self.filepath is not None:
                         self.write(self.filepath, overwrite=True)
+
+                # If the exploration ends with this batch, the batch is only
+                # written together with the end of the exploration above. A
+                # run resumed in between repeats the batch and ends the same.
+                elif self.filepath is not None:
+                    # Write the complete file if this is the first batch.
+                    if self.n_like == self.n_batch:
+                        self.write(self.filepath, overwrite=True)
+                    self.write_shell_update(self.filepath, -1)
 
             elif np.any(self.shell_n < n_shell):
                 shell = np.flatnonzero(self.shell_n < n_shell)[0]
